@@ -337,6 +337,12 @@ def _generate_task_from_yield(tasks, func_name, task_dict, gen_doc):
             task_dict['actions'] = None
             group_task = dict_to_task(task_dict)
             group_task.has_subtask = True
+            existing = tasks.get(basename)
+            if existing is not None:
+                if not existing.has_subtask:
+                    raise InvalidTask(msg_dup % (func_name, basename))
+                # keep sub-tasks yielded before the group attributes
+                group_task.task_dep.extend(existing.task_dep)
             tasks[basename] = group_task
             return
 
@@ -398,6 +404,9 @@ def generate_tasks(func_name, gen_result, gen_doc=None):
         # the generator return subtasks as dictionaries
         for task_dict, x_doc in flat_generator(gen_result, gen_doc):
             if isinstance(task_dict, Task):
+                if task_dict.name in tasks:
+                    msg = "Task generation '%s' has duplicated definition of '%s'"
+                    raise InvalidTask(msg % (func_name, task_dict.name))
                 tasks[task_dict.name] = task_dict
             else:
                 _generate_task_from_yield(tasks, func_name, task_dict, x_doc)
